@@ -324,7 +324,9 @@ def _obs_lit(fn):
 
 
 # ----------------------------------------------------------------------------- building frames
-def _array(kind, values):
+def _array(kind, values, dtype=None):
+    if dtype is not None:
+        return np.array(values, dtype=dtype)
     if kind == 'O':
         a = np.empty(len(values), dtype=object)
         for i, v in enumerate(values):
@@ -746,110 +748,180 @@ def _struct_spec(rng, alphabet):
 
 
 def structural_cases(ctx):
-    import copy
-    import pickle
     import static_frame as sf
     rng = ctx.rng
-    IH = sf.IndexHierarchy.from_labels
     fixed = [
         # the minimal replay of the row-export finding, and the regression input of the repaired Frame.items() defect
         {'index': [['x']], 'columns': [['a'], ['b']], 'cols': [('i', [2 ** 63 - 1]), ('f', [1.5])], 'di': 1, 'dc': 1},
         {'index': [['x']], 'columns': [['a', 1], ['a', 2]], 'cols': [('i', [1]), ('i', [2])], 'di': 1, 'dc': 2},
     ]
-    for it in range(ctx.n(70, 1200)):
+    for it in range(ctx.n(60, 1000)):
         alphabet = ALPHABET if rng.random() < 0.5 else ['a', '1', ' ', '-', 'b', '.']
         spec = fixed[it] if it < len(fixed) else _struct_spec(rng, alphabet)
-        arrays = [_array(k, vs) for k, vs in spec['cols']]
+        arrays = [_array(*c) for c in spec['cols']]
         layout = rng.choice(list(zoo.layouts_for([a.dtype for a in arrays])))
         frame = build(dict(spec, index_name=None), layout)
         frame = frame.rename('fr' if rng.random() < 0.5 else None)
-        src = observe(frame)
-        f = _tframe(src)
-        di, dc = spec['di'], spec['dc']
-        ic = IH if di > 1 else None
-        cc = IH if dc > 1 else None
-        base = {'frame': _jsonable(src), 'layout': zoo.layout_str(layout), 'index_depth': di, 'columns_depth': dc}
-        tags = {'op': 'structural'}
-        dom = 'struct_dom f'
-        share = lambda pl, body: f'(let f := {f} in let pl := {pl} in {body})'
-        kinds = [k for k, _ in spec['cols']]
-        mix = all(k in 'if' for k in kinds) and 'i' in kinds and 'f' in kinds
-        big = [v for k, vs in spec['cols'] if k == 'i' for v in vs if abs(v) > 2 ** 53]
-        rounds = [v for v in big if int(float(v)) != v]
-        # rows of an int + float Frame are float64 arrays: ints beyond 2^53 are outside the model of the row exports,
-        # and those that are not exactly a double come back changed (the C07 row-coercion defect seen through C16)
-        row_tags = dict(tags, finding=F_ROWS) if (mix and rounds) else tags
-        row_model = not (mix and big)
+        yield from _struct_roundtrips(ctx, frame, spec, zoo.layout_str(layout), 'Frame built in one step')
+    # receivers that are FrameGO grown column by column with same-kind columns of increasing width: TypeBlocks.append
+    # maintains the cached row dtype incrementally, and every row-wise export goes through it
+    grown_fixed = [
+        [('U', ['c', 'd'], '<U1'), ('U', ['ccc', 'dd'], '<U3')],
+        [('i', [1, -2], 'int8'), ('i', [300, 70000], 'int64')],
+        [('f', [1.5, -2.0], 'float32'), ('f', [0.1, 1e-9], 'float64')],
+        [('U', ['a', 'b'], '<U1'), ('U', ['a b', 'ab'], '<U3'), ('U', ['abcde', ''], '<U5')],
+    ]
+    for it in range(ctx.n(40, 600)):
+        nr = 2 if it < len(grown_fixed) else rng.choice([1, 2, 3])
+        cols = grown_fixed[it] if it < len(grown_fixed) else _grown_cols(rng, nr)
+        di = rng.choice([1, 1, 2])
+        spec = {'index': _rlabels(rng, nr, [rng.choice('si') for _ in range(di)], ['a', 'b', '1', ' ']),
+                'columns': _rlabels(rng, len(cols), [rng.choice('si')], ['a', 'b', '1', ' ']), 'cols': cols, 'di': di, 'dc': 1}
+        index = _index(spec['index'], di)
+        g = sf.FrameGO(index=index)
+        how = []
+        for lab, col in zip(spec['columns'], cols):
+            arr = _array(*col)
+            arr.flags.writeable = False
+            if rng.random() < 0.6:
+                g[lab[0]] = arr
+                how.append('setitem')
+            else:
+                g.extend(sf.Frame.from_items([(lab[0], arr)], index=index))
+                how.append('extend')
+        yield from _struct_roundtrips(ctx, g, spec, '+'.join(how), 'FrameGO grown column by column', grown=True)
 
-        # to_pairs(0) -> from_items
-        p0 = frame.to_pairs(0)
-        obs, oj, _ = _obs_lit(lambda: sf.Frame.from_items(((k, [v for _, v in col]) for k, col in p0), index=[i for i, _ in p0[0][1]],
-                                                         index_constructor=ic, columns_constructor=cc))
-        pl = _pairs_lit(p0, dc, di)
-        ctx.count('struct:pairs0')
-        yield Case('api:pairs-axis0', dict(base, call='Frame.from_items(((k, [v for _, v in col]) for k, col in f.to_pairs(0)), index=[i for i, _ in p[0][1]])', observed=oj),
-                   m=share(pl, f'{dom} && pairs_eqb (M_to_pairs0 f) pl && obs_eqb (Ok (M_from_pairs0 pl)) {obs}'),
-                   s=f'obs_sim (Ok {f}) {obs}', tags=tags)
-        # to_pairs(1) -> from_records_items
-        p1 = frame.to_pairs(1)
-        obs, oj, _ = _obs_lit(lambda: sf.Frame.from_records_items(((i, [v for _, v in row]) for i, row in p1), columns=[c for c, _ in p1[0][1]],
-                                                                 index_constructor=ic, columns_constructor=cc))
-        pl = _pairs_lit(p1, di, dc)
-        ctx.count('struct:pairs1')
-        yield Case('api:pairs-axis1', dict(base, call='Frame.from_records_items(((i, [v for _, v in row]) for i, row in f.to_pairs(1)), columns=[c for c, _ in p[0][1]])', observed=oj),
-                   m=share(pl, f'{dom} && pairs_eqb (M_to_pairs1 f) pl && obs_eqb (Ok (M_from_pairs1 pl)) {obs}') if row_model else None,
-                   s=f'obs_sim (Ok {f}) {obs}', tags=row_tags)
-        # rows -> from_records
-        rows = list(frame.iter_tuple(axis=1, constructor=tuple))
+
+_WIDTHS = {'i': ['int8', 'int16', 'int32', 'int64'], 'f': ['float32', 'float64'], 'U': ['<U1', '<U2', '<U3', '<U5']}
+
+
+def _grown_cols(rng, nr):
+    """2-4 columns; runs of the same kind with increasing width (sometimes a second kind after it)."""
+    out = []
+    for kind in rng.sample(['U', 'i', 'f'], rng.choice([1, 1, 2])):
+        widths = _WIDTHS[kind]
+        start = rng.randrange(len(widths) - 1)
+        for w in widths[start:start + rng.choice([2, 2, 3])]:
+            if kind == 'U':
+                n = int(w[2:])
+                vs = [''.join(rng.choice('abc 1') for _ in range(rng.randint(max(1, n - 1), n))) for _ in range(nr)]
+                vs[rng.randrange(nr)] = ''.join(rng.choice('abc') for _ in range(n))
+            elif kind == 'i':
+                hi = 2 ** (8 * np.dtype(w).itemsize - 1) - 1
+                vs = [rng.choice([hi, -hi - 1, rng.randint(-100, 100)]) for _ in range(nr)]
+            else:
+                vs = [rng.choice([1.5, -0.25, rng.randint(-999, 999) / 8] + ([0.1, 1e-9, 1 / 3] if w == 'float64' else [])) for _ in range(nr)]
+            out.append((kind, vs, w))
+    return out
+
+
+def _struct_roundtrips(ctx, frame, spec, layout, receiver, grown=False):
+    import copy
+    import pickle
+    import static_frame as sf
+    IH = sf.IndexHierarchy.from_labels
+    cls = type(frame)
+    src = observe(frame)
+    f = _tframe(src)
+    di, dc = spec['di'], spec['dc']
+    ic = IH if di > 1 else None
+    cc = IH if dc > 1 else None
+    base = {'receiver': receiver, 'frame': _jsonable(src), 'layout': layout, 'index_depth': di, 'columns_depth': dc,
+            'dtypes': [str(frame._blocks._extract_array(column_key=j).dtype) for j in range(frame.shape[1])]}
+    tags = {'op': 'structural'}
+    dom = 'struct_dom f'
+    share = lambda pl, body: f'(let f := {f} in let pl := {pl} in {body})'
+    kinds = [c[0] for c in spec['cols']]
+    # the rows of a one-step int + float Frame are float64 arrays; a grown FrameGO keeps an exact common dtype or object
+    mix = (not grown) and all(k in 'if' for k in kinds) and 'i' in kinds and 'f' in kinds
+    big = [v for c in spec['cols'] if c[0] == 'i' for v in c[1] if abs(v) > 2 ** 53]
+    rounds = [v for v in big if int(float(v)) != v]
+    # rows of an int + float Frame are float64 arrays: ints beyond 2^53 are outside the model of the row exports,
+    # and those that are not exactly a double come back changed (the C07 row-coercion defect seen through C16)
+    row_tags = dict(tags, finding=F_ROWS) if (mix and rounds) else tags
+    row_model = not (mix and big)
+
+    # to_pairs(0) -> from_items
+    p0 = frame.to_pairs(0)
+    obs, oj, _ = _obs_lit(lambda: sf.Frame.from_items(((k, [v for _, v in col]) for k, col in p0), index=[i for i, _ in p0[0][1]],
+                                                     index_constructor=ic, columns_constructor=cc))
+    pl = _pairs_lit(p0, dc, di)
+    ctx.count('struct:pairs0')
+    yield Case('api:pairs-axis0', dict(base, call='Frame.from_items(((k, [v for _, v in col]) for k, col in f.to_pairs(0)), index=[i for i, _ in p[0][1]])', observed=oj),
+               m=share(pl, f'{dom} && pairs_eqb (M_to_pairs0 f) pl && obs_eqb (Ok (M_from_pairs0 pl)) {obs}'),
+               s=f'obs_sim (Ok {f}) {obs}', tags=tags)
+    # to_pairs(1) -> from_records_items
+    p1 = frame.to_pairs(1)
+    obs, oj, _ = _obs_lit(lambda: sf.Frame.from_records_items(((i, [v for _, v in row]) for i, row in p1), columns=[c for c, _ in p1[0][1]],
+                                                             index_constructor=ic, columns_constructor=cc))
+    pl = _pairs_lit(p1, di, dc)
+    ctx.count('struct:pairs1')
+    yield Case('api:pairs-axis1', dict(base, call='Frame.from_records_items(((i, [v for _, v in row]) for i, row in f.to_pairs(1)), columns=[c for c, _ in p[0][1]])', observed=oj),
+               m=share(pl, f'{dom} && pairs_eqb (M_to_pairs1_gen {lit.b(mix)} f) pl && obs_eqb (Ok (M_from_pairs1 pl)) {obs}') if row_model else None,
+               s=f'obs_sim (Ok {f}) {obs}', tags=row_tags)
+    # rows -> from_records
+    rows = list(frame.iter_tuple(axis=1, constructor=tuple))
+    obs, oj, _ = _obs_lit(lambda: sf.Frame.from_records(rows, index=frame.index, columns=frame.columns))
+    rl = _rows_lit(rows)
+    ctx.count('struct:records')
+    yield Case('api:records', dict(base, call='Frame.from_records(list(f.iter_tuple(axis=1, constructor=tuple)), index=f.index, columns=f.columns)', observed=oj),
+               m=(share(rl, f'{dom} && rows_eqb (M_rows_gen {lit.b(mix)} f) pl && obs_eqb (Ok (M_from_records (tf_index f) (tf_columns f) pl)) {obs}')
+                  if row_model else None),
+               s=f'obs_sim (Ok {f}) {obs}', tags=row_tags)
+    for name, getter in (('iter_array', lambda: [a for a in frame.iter_array(axis=1)]),
+                         ('iter_series', lambda: [sr.values for sr in frame.iter_series(axis=1)])):
+        rows = [tuple(a.tolist()) if a.dtype.kind != 'O' else tuple(a) for a in getter()]
         obs, oj, _ = _obs_lit(lambda: sf.Frame.from_records(rows, index=frame.index, columns=frame.columns))
         rl = _rows_lit(rows)
-        ctx.count('struct:records')
-        yield Case('api:records', dict(base, call='Frame.from_records(list(f.iter_tuple(axis=1, constructor=tuple)), index=f.index, columns=f.columns)', observed=oj),
-                   m=(share(rl, f'{dom} && rows_eqb (M_rows f) pl && obs_eqb (Ok (M_from_records (tf_index f) (tf_columns f) pl)) {obs}')
+        ctx.count(f'struct:records-{name}')
+        yield Case(f'api:records-{name}', dict(base, call=f'Frame.from_records([row values of f.{name}(axis=1)], index=f.index, columns=f.columns)', observed=oj),
+                   m=(share(rl, f'{dom} && rows_eqb (M_rows_gen {lit.b(mix)} f) pl && obs_eqb (Ok (M_from_records (tf_index f) (tf_columns f) pl)) {obs}')
                       if row_model else None),
                    s=f'obs_sim (Ok {f}) {obs}', tags=row_tags)
-        # dict records -> from_dict_records
-        obs, oj, _ = _obs_lit(lambda: sf.Frame.from_dict_records([dict(r) for _, r in p1], index=frame.index, columns_constructor=cc))
-        ctx.count('struct:dict_records')
-        yield Case('api:dict-records', dict(base, call='Frame.from_dict_records([dict(r) for _, r in f.to_pairs(1)], index=f.index)', observed=oj),
-                   s=f'obs_sim (Ok {f}) {obs}', tags=row_tags)
-        # items -> from_items
-        obs, oj, _ = _obs_lit(lambda: sf.Frame.from_items(frame.items(), index=frame.index, columns_constructor=cc))
-        ctx.count('struct:items')
-        yield Case('api:items', dict(base, call='Frame.from_items(f.items(), index=f.index)', observed=oj),
-                   s=f'obs_sim (Ok {f}) {obs}', tags=tags)
-        # pickle / deepcopy: equal Frame, same dtypes, names, class, read-only arrays
-        for how, fn in (('pickle', lambda: pickle.loads(pickle.dumps(frame))), ('deepcopy', lambda: copy.deepcopy(frame))):
-            try:
-                g = fn()
-            except Exception as e:  # noqa
-                yield Case(f'api:{how}', dict(base, call=how, observed={'raised': lit.err_class(e)}), py_fail=f'{how} raised {type(e).__name__}', tags=tags)
-                continue
-            why = []
-            if type(g) is not type(frame):
-                why.append('class differs')
-            if g.name != frame.name or g.index.name != frame.index.name or g.columns.name != frame.columns.name:
-                why.append('a name differs')
-            data_flags = [b.flags.writeable for b in g._blocks._blocks]
-            data_flags += [g.index.values.flags.writeable, g.columns.values.flags.writeable]
-            for ix in (g.index, g.columns):
-                if ix.depth > 1:
-                    data_flags += [ix.values_at_depth(k).flags.writeable for k in range(ix.depth)]
-            if any(data_flags):
-                why.append('a block or label array is writeable')
-            pos_flags = [g.index.positions.flags.writeable, g.columns.positions.flags.writeable]
-            ctx.count(f'struct:{how}')
-            flat = di == 1 and dc == 1
-            nb = len(g._blocks._blocks)
-            flags_obs = [b.flags.writeable for b in g._blocks._blocks] + [g.index.values.flags.writeable, g.index.positions.flags.writeable,
-                                                                       g.columns.values.flags.writeable, g.columns.positions.flags.writeable]
-            yield Case(f'api:{how}', dict(base, call=f'{how} of f; equality with dtypes, names, class; flags.writeable of blocks and label arrays',
-                                          observed={'writeable': data_flags, 'why': why}),
-                       m=(f'list_eqb Bool.eqb (unpickle_flags {nb}) {lit.lst([lit.b(x) for x in flags_obs])}' if (how == 'pickle' and flat) else None),
-                       s=f'oframe_eqb {_oframe(frame)} {_oframe(g)}', py_fail='; '.join(why) or None, tags=tags)
-            yield Case(f'api:{how}-positions', dict(base, call=f'{how} of f; flags.writeable of index.positions / columns.positions', observed={'writeable': pos_flags}),
-                       py_fail='a positions array is writeable' if any(pos_flags) else None,
-                       tags=tags)
+    # dict records -> from_dict_records
+    obs, oj, _ = _obs_lit(lambda: sf.Frame.from_dict_records([dict(r) for _, r in p1], index=frame.index, columns_constructor=cc))
+    ctx.count('struct:dict_records')
+    yield Case('api:dict-records', dict(base, call='Frame.from_dict_records([dict(r) for _, r in f.to_pairs(1)], index=f.index)', observed=oj),
+               s=f'obs_sim (Ok {f}) {obs}', tags=row_tags)
+    # items -> from_items
+    obs, oj, _ = _obs_lit(lambda: sf.Frame.from_items(frame.items(), index=frame.index, columns_constructor=cc))
+    ctx.count('struct:items')
+    yield Case('api:items', dict(base, call='Frame.from_items(f.items(), index=f.index)', observed=oj),
+               s=f'obs_sim (Ok {f}) {obs}', tags=tags)
+    # pickle / deepcopy: equal Frame, same dtypes, names, class, read-only arrays
+    for how, fn in (('pickle', lambda: pickle.loads(pickle.dumps(frame))), ('deepcopy', lambda: copy.deepcopy(frame))):
+        try:
+            g = fn()
+        except Exception as e:  # noqa
+            yield Case(f'api:{how}', dict(base, call=how, observed={'raised': lit.err_class(e)}), py_fail=f'{how} raised {type(e).__name__}', tags=tags)
+            continue
+        why = []
+        if type(g) is not type(frame):
+            why.append('class differs')
+        if g.name != frame.name or g.index.name != frame.index.name or g.columns.name != frame.columns.name:
+            why.append('a name differs')
+        data_flags = [b.flags.writeable for b in g._blocks._blocks]
+        data_flags += [g.index.values.flags.writeable, g.columns.values.flags.writeable]
+        for ix in (g.index, g.columns):
+            if ix.depth > 1:
+                data_flags += [ix.values_at_depth(k).flags.writeable for k in range(ix.depth)]
+        if any(data_flags):
+            why.append('a block or label array is writeable')
+        pos_flags = [g.index.positions.flags.writeable, g.columns.positions.flags.writeable]
+        ctx.count(f'struct:{how}')
+        flat = di == 1 and dc == 1
+        nb = len(g._blocks._blocks)
+        flags_obs = [b.flags.writeable for b in g._blocks._blocks] + [g.index.values.flags.writeable, g.index.positions.flags.writeable,
+                                                                   g.columns.values.flags.writeable, g.columns.positions.flags.writeable]
+        yield Case(f'api:{how}', dict(base, call=f'{how} of f; equality with dtypes, names, class; flags.writeable of blocks and label arrays',
+                                      observed={'writeable': data_flags, 'why': why}),
+                   m=(f'list_eqb Bool.eqb (unpickle_flags {nb}) {lit.lst([lit.b(x) for x in flags_obs])}' if (how == 'pickle' and flat) else None),
+                   s=f'oframe_eqb {_oframe(frame)} {_oframe(g)}', py_fail='; '.join(why) or None, tags=tags)
+        yield Case(f'api:{how}-positions', dict(base, call=f'{how} of f; flags.writeable of index.positions / columns.positions', observed={'writeable': pos_flags}),
+                   py_fail='a positions array is writeable' if any(pos_flags) else None,
+                   tags=tags)
+
+
 
 
 
